@@ -243,7 +243,7 @@ impl rustc_driver::Callbacks for Cb {
         if !only.contains(&krate) {
             return Compilation::Continue;
         }
-        let j = ty::print::with_resolve_crate_name!(ty::print::with_no_trimmed_paths!(dump(tcx, &krate)));
+        let j = ty::print::with_no_visible_paths!(ty::print::with_resolve_crate_name!(ty::print::with_no_trimmed_paths!(dump(tcx, &krate))));
         let mut s = String::with_capacity(1 << 24);
         j.write(&mut s);
         let p = format!("{}/{}-{}.json", out_dir, krate, std::process::id());
